@@ -19,7 +19,8 @@ PROPERTY_ID = "C11"
 LEVEL = "exploration"
 RULE = (
     "2-4 participants (forked processes, or threads of one process sharing the Memory object and its wrappers) each run a generated workload over two cached "
-    "functions: calls with arguments from a small set (collisions are the norm), reduce_size(items_limit 0|1), "
+    "functions: calls with arguments from a small set (collisions are the norm), the same calls through wrappers whose "
+    "cache_validation_callback rejects every entry (the call removes the entry it finds, then recomputes), reduce_size(items_limit 0|1), "
     "reduce_size(bytes_limit), Memory.clear(), f.clear().  Every libc file-system call under the cache directory (reads "
     "included: stat, access, open, opendir; and every create/write/rename/mkdir/unlink/rmdir) is intercepted by the LD_PRELOAD "
     "interposer in TURN mode: the participant posts the call and blocks until the controller grants it, so exactly one "
@@ -48,7 +49,7 @@ def strategy():
     op = st.one_of(
         st.tuples(st.just("call"), st.integers(0, 1), arg).map(list),
         st.tuples(st.just("call"), st.integers(0, 1), arg).map(list),
-        st.tuples(st.just("call"), st.integers(0, 1), arg).map(list),
+        st.tuples(st.just("call_stale"), st.integers(0, 1), arg).map(list),
         st.tuples(st.just("reduce"), st.integers(0, 1)).map(list),
         st.tuples(st.just("reduce_bytes"), st.sampled_from([0, 1000, 100000])).map(list),
         st.just(["clear"]),
@@ -77,7 +78,10 @@ def _participant(i, spec, location, moddir, reqw, grantr, respath):
 
     mod = c05._load_module_noreload(moddir)
     mem = joblib.Memory(location, compress=spec["compress"], verbose=0)
-    wrapped = [mem.cache(mod.wf0), mem.cache(mod.wf1)]
+    wrapped = [mem.cache(mod.wf0), mem.cache(mod.wf1),
+               # the same functions with a validation callback that rejects every entry: each such call first removes the
+               # entry it finds (another remover may be at work on it) and then recomputes
+               mem.cache(mod.wf0, cache_validation_callback=_never_valid), mem.cache(mod.wf1, cache_validation_callback=_never_valid)]
     fsgate.arm(location, fsgate.TURN, reqfd=reqw, grantfd=grantr, ident=i)
     try:
         results = _ops(spec["participants"][i], mem, wrapped)
@@ -98,7 +102,10 @@ def _threads_host(spec, location, moddir, reqw, grant_r, alive_w, top):
 
     mod = c05._load_module_noreload(moddir)
     mem = joblib.Memory(location, compress=spec["compress"], verbose=0)
-    wrapped = [mem.cache(mod.wf0), mem.cache(mod.wf1)]
+    wrapped = [mem.cache(mod.wf0), mem.cache(mod.wf1),
+               # the same functions with a validation callback that rejects every entry: each such call first removes the
+               # entry it finds (another remover may be at work on it) and then recomputes
+               mem.cache(mod.wf0, cache_validation_callback=_never_valid), mem.cache(mod.wf1, cache_validation_callback=_never_valid)]
     fsgate.arm(location, fsgate.TURN, reqfd=reqw, grantfd=-1, ident=99)   # threads that are not participants run free
 
     def body(i):
@@ -118,6 +125,10 @@ def _threads_host(spec, location, moddir, reqw, grant_r, alive_w, top):
     fsgate.disarm()
 
 
+def _never_valid(metadata):
+    return False
+
+
 def _ops(ops, mem, wrapped):
     import traceback
     results = []
@@ -125,8 +136,8 @@ def _ops(ops, mem, wrapped):
         for op in ops:
             k = op[0]
             try:
-                if k == "call":
-                    got = wrapped[op[1]](*op[2])
+                if k in ("call", "call_stale"):
+                    got = wrapped[op[1] + (2 if k == "call_stale" else 0)](*op[2])
                     want = c05._expected(op[1], 1, op[2][0], op[2][1])
                     results.append({"op": op, "ok": got == want, "got": None if got == want else repr(got)[:200]})
                 elif k == "reduce":
@@ -158,7 +169,7 @@ def run_case(spec):
     location = os.path.join(top, "cache")
     moddir = os.path.join(top, "mod")
     os.makedirs(moddir)
-    with open(os.path.join(moddir, c05.MODNAME + ".py"), "w") as f:
+    with open(os.path.join(moddir, c05.MODNAME + ".py"), "w", encoding="utf-8") as f:
         f.write(c05._source(1))
     n = len(spec["participants"])
     if spec.get("warm"):
@@ -247,7 +258,7 @@ def run_case(spec):
             with open(rp) as f:
                 res = json.load(f)
             for r in res:
-                if r["op"][0] == "call":
+                if r["op"][0] in ("call", "call_stale"):
                     if "raised" in r:
                         raise Violation("participant %d: cached call %r raised %s at %s because of the concurrent activity; %s"
                                         % (i, r["op"], r["raised"], r["where"], sched), signature=["call-raises", r["raised"].split(":")[0], r["where"][-1:] and r["where"][-1].split()[-1]])
